@@ -70,6 +70,9 @@ def run_shard(prop, tier, seed, shard, nshards, outfile, case_timeout):
         monitor.disarm()
     finally:
         sys.stdout = real_stdout
+    if monitor.history.ENABLED:
+        for k, v in monitor.history.HIST.stats.items():
+            REC.tag(prop, 'history:' + k, v)
     out = REC.dump()
     out.update({'ncases_total': len(cases), 'ncases_shard': len(mine), 'done': done,
                 'wall_s': time.time() - t0, 'coverage': cov.report(), 'terminated': terminated})
